@@ -9,7 +9,7 @@ namespace DConfig
 def showHTTP (c : HTTP.Cfg) : String :=
   s!"ReadTimeout={c.ReadTimeout} WriteTimeout={c.WriteTimeout} IdleTimeout={c.IdleTimeout} MaxNumWant={c.MaxNumWant} DefaultNumWant={c.DefaultNumWant} MaxScrapeInfoHashes={c.MaxScrapeInfoHashes}"
 def showUDP (c : UDP.Cfg) : String :=
-  s!"PrivateKeyEmpty={b01 c.PrivateKey_empty} MaxNumWant={c.MaxNumWant} DefaultNumWant={c.DefaultNumWant} MaxScrapeInfoHashes={c.MaxScrapeInfoHashes}"
+  s!"PrivateKeyEmpty={b01 c.PrivateKey_empty} MaxNumWant={c.MaxNumWant} DefaultNumWant={c.DefaultNumWant} MaxScrapeInfoHashes={c.MaxScrapeInfoHashes} MaxClockSkew={c.MaxClockSkew}"
 def showMem (c : Memory.Cfg) : String :=
   s!"ShardCount={c.ShardCount} GarbageCollectionInterval={c.GarbageCollectionInterval} PrometheusReportingInterval={c.PrometheusReportingInterval} PeerLifetime={c.PeerLifetime}"
 def showRedis (c : Redis.Cfg) : String :=
@@ -23,7 +23,7 @@ def opValidate (l : Line) : Except String String := do
     let v := HTTP.validate c
     pure (showHTTP v ++ s!" idem={b01 (HTTP.validate v == v)}" ++ "\t" ++ (if v == c then "kept" else "defaulted"))
   | "udp" =>
-    let c : UDP.Cfg := { PrivateKey_empty := (← l.bool "PrivateKeyEmpty"), MaxNumWant := (← l.int "MaxNumWant"), DefaultNumWant := (← l.int "DefaultNumWant"), MaxScrapeInfoHashes := (← l.int "MaxScrapeInfoHashes") }
+    let c : UDP.Cfg := { PrivateKey_empty := (← l.bool "PrivateKeyEmpty"), MaxNumWant := (← l.int "MaxNumWant"), DefaultNumWant := (← l.int "DefaultNumWant"), MaxScrapeInfoHashes := (← l.int "MaxScrapeInfoHashes"), MaxClockSkew := (← l.int "MaxClockSkew") }
     let v := UDP.validate c
     pure (showUDP v ++ s!" idem={b01 (UDP.validate v == v)}" ++ "\t" ++ (if v == c then "kept" else "defaulted"))
   | "memory" =>
